@@ -14,8 +14,9 @@ CONFIGS = {
               # programs containing a call the writer refuses (RefusedWrite: raises, nothing written, nothing remembered)
               ("MC_C07", "MC_C07_struct.cfg", {"MaxCalls": 2, "MaxRefused": 1, "ObjSeqs": "c_SeqsRefuse", "Lens": "{2}"}),
               ("MC_C07", "MC_C07_classes.cfg", {"MaxCalls": 2, "Lens": "{0, 3}"}),
-              # arrays larger than any internal block size (1 MiB), to a stream and to a path
-              ("MC_C07", "MC_C07_classes.cfg", {"MaxCalls": 1, "MaxSessions": 1, "Lens": "{150001}",
+              # arrays larger than any internal block size (1 MiB), to a stream and to a path (2^17: an exact multiple of
+              # every power-of-two block length)
+              ("MC_C07", "MC_C07_classes.cfg", {"MaxCalls": 1, "MaxSessions": 1, "Lens": "{150001, 131072}",
                                                 "ArrayClasses": "c_BigClasses", "ObjSeqs": "c_SeqsA"}),
               ("MC_C07", "MC_C07_props.cfg", {"MaxCalls": 1, "PropNamesW": '{"p1"}'}),
               ("MC_C07", "MC_C07_props.cfg", {"MaxCalls": 2, "ValueClasses": "c_FewValueClasses", "PropNamesW": '{"p1"}'})],
